@@ -20,6 +20,7 @@ import (
 	"testing"
 
 	"buf.build/go/bufplugin/check"
+	"github.com/bufbuild/buf/private/bufpkg/bufcheck"
 	"github.com/bufbuild/buf/private/bufpkg/bufimage"
 	"github.com/bufbuild/buf/private/bufpkg/bufmodule"
 	"github.com/bufbuild/bufverif/internal/bufx"
@@ -64,6 +65,8 @@ type Config struct {
 	IgnoreOnly          map[string][]string `json:"ignore_only"`
 	AllowCommentIgnores bool                `json:"allow_comment_ignores"`
 	HasUnknown          bool                `json:"has_unknown"`
+	// ExcludeImports (breaking only): the --exclude-imports option; without it breaking also reports import files
+	ExcludeImports bool `json:"exclude_imports,omitempty"`
 }
 
 // Case is the replayable input.
@@ -201,7 +204,7 @@ func buildMods(ctx context.Context, ms []Mod, files map[string]map[string]string
 	return bufimage.BuildImage(ctx, bufx.Logger, bufmodule.ModuleSetToModuleReadBucketWithOnlyProtoFiles(set))
 }
 
-func runCheck(ctx context.Context, c *Case, img, old bufimage.Image, use, except, ignore []string, ignoreOnly map[string][]string, allowComments bool) ([]bufx.Ann, error) {
+func runCheck(ctx context.Context, c *Case, img, old bufimage.Image, use, except, ignore []string, ignoreOnly map[string][]string, allowComments bool, excludeImports ...bool) ([]bufx.Ann, error) {
 	if c.Kind == "lint" {
 		cfg, err := checkx.LintConfig(c.Config.Version, use, except, ignore, ignoreOnly, checkx.LintOptions{AllowCommentIgnores: allowComments})
 		if err != nil {
@@ -212,6 +215,13 @@ func runCheck(ctx context.Context, c *Case, img, old bufimage.Image, use, except
 	cfg, err := checkx.BreakingConfig(c.Config.Version, use, except, ignore, ignoreOnly, false)
 	if err != nil {
 		return nil, err
+	}
+	if len(excludeImports) > 0 && excludeImports[0] {
+		cl, err := checkx.Client()
+		if err != nil {
+			return nil, err
+		}
+		return bufx.Annotations(cl.Breaking(ctx, cfg, img, old, bufcheck.BreakingWithExcludeImports()))
 	}
 	return checkx.Breaking(ctx, cfg, img, old)
 }
@@ -270,9 +280,12 @@ func run(ctx context.Context, t interface {
 		}
 	}
 	cfg := c.Config
-	got, gotErr := runCheck(ctx, c, img, old, cfg.Use, cfg.Except, cfg.Ignore, cfg.IgnoreOnly, cfg.AllowCommentIgnores)
+	got, gotErr := runCheck(ctx, c, img, old, cfg.Use, cfg.Except, cfg.Ignore, cfg.IgnoreOnly, cfg.AllowCommentIgnores, cfg.ExcludeImports)
 	r.Eval()
 	r.Class(c.Kind + ":" + cfg.Version)
+	if cfg.ExcludeImports {
+		r.Class("breaking:exclude-imports")
+	}
 	if cfg.HasUnknown {
 		r.Class("unknown-id")
 		if gotErr == nil {
@@ -332,12 +345,16 @@ func run(ctx context.Context, t interface {
 				r.Fail(t, "single-rule-config-reports-other-rule", fmt.Sprintf("use=[%s] reported %s", rule, a), c)
 				return
 			}
-			if isImport[a.Path] {
+			if isImport[a.Path] && c.Kind == "lint" {
 				r.Fail(t, "import-file-reported", fmt.Sprintf("%s is only an import but got %s", a.Path, a), c)
 				return
 			}
 			total++
 			sup := ""
+			if isImport[a.Path] && cfg.ExcludeImports {
+				// breaking reports import files too unless imports are excluded; the single-rule runs do not exclude them
+				sup = "exclude-imports"
+			}
 			// the files an annotation belongs to: where it is now and, for a moved element, where it was
 			locs := []string{a.Path}
 			for _, mv := range c.Moved {
@@ -373,7 +390,7 @@ func run(ctx context.Context, t interface {
 				suppressedBy[sup]++
 				continue
 			}
-			if a.Path == "" && (len(cfg.Ignore) > 0 || len(ignoreOnlyRules[rule]) > 0) {
+			if a.Path == "" && (len(cfg.Ignore) > 0 || len(ignoreOnlyRules[rule]) > 0 || cfg.ExcludeImports) {
 				optional[key(a)] = true
 				continue
 			}
@@ -383,6 +400,10 @@ func run(ctx context.Context, t interface {
 	gotSet := map[string]bufx.Ann{}
 	for _, a := range got {
 		gotSet[key(a)] = a
+		if isImport[a.Path] && (c.Kind == "lint" || cfg.ExcludeImports) {
+			r.Fail(t, "import-file-reported", fmt.Sprintf("%s is only an import (imports excluded) but got %s", a.Path, a), c)
+			return
+		}
 	}
 	for k, a := range expected {
 		if _, ok := gotSet[k]; !ok {
@@ -722,12 +743,24 @@ func genLint(ctx context.Context, t *rapid.T) *Case {
 func genBreaking(ctx context.Context, t *rapid.T) *Case {
 	gcfg := protogen.DefaultConfig()
 	gcfg.MaxFiles, gcfg.UnusedImports = 5, false
-	gcfg.MaxPackages, gcfg.MaxModules = 2, 2
+	gcfg.MaxPackages, gcfg.MaxModules = 2, 3
 	ws := protogen.GenWorkspace(t, gcfg)
 	c := &Case{Kind: "breaking"}
 	c.Old = ws.Render().ByModule
+	// a third of the cases: some modules are not targets (their files are imports in both images)
+	target := map[string]bool{}
+	if len(ws.Modules) >= 2 && rapid.Bool().Draw(t, "breaking-imports") {
+		nt := rapid.IntRange(0, len(ws.Modules)-1).Draw(t, "non-target")
+		for i, m := range ws.Modules {
+			target[m.Dir] = i != nt
+		}
+	}
+	isTarget := func(dir string) bool {
+		v, ok := target[dir]
+		return !ok || v
+	}
 	for _, m := range ws.Modules {
-		c.OldMods = append(c.OldMods, Mod{m.Dir, m.Name, true})
+		c.OldMods = append(c.OldMods, Mod{m.Dir, m.Name, isTarget(m.Dir)})
 	}
 	nw := ws.Clone()
 	ed := protogen.NewEditor(t)
@@ -770,7 +803,7 @@ func genBreaking(ctx context.Context, t *rapid.T) *Case {
 	nr := nw.Render()
 	c.Files = nr.ByModule
 	for _, m := range nw.Modules {
-		c.Mods = append(c.Mods, Mod{m.Dir, m.Name, true})
+		c.Mods = append(c.Mods, Mod{m.Dir, m.Name, isTarget(m.Dir)})
 	}
 	if _, err := buildMods(ctx, c.Mods, c.Files); err != nil {
 		t.Skip("edited combination does not build")
@@ -784,6 +817,9 @@ func genBreaking(ctx context.Context, t *rapid.T) *Case {
 		}
 	}
 	c.Config = genConfig(t, "breaking", paths, protogen.SortedKeys(hot))
+	if len(target) > 0 {
+		c.Config.ExcludeImports = rapid.IntRange(0, 3).Draw(t, "exclude-imports") != 0
+	}
 	return c
 }
 
